@@ -287,6 +287,9 @@ func removeIncludedTaxes(doc billable) error {
 
 	// Account for any rounding errors that we just can't handle
 	t := doc.getTotals()
+	if t == nil {
+		return nil // stored totals with nothing behind them: nothing to compare
+	}
 	if !totalWithTax.Equals(t.TotalWithTax) {
 		rnd := totalWithTax.Subtract(t.TotalWithTax)
 		t.Rounding = &rnd
